@@ -4,7 +4,8 @@ import random
 import corecheck
 import worlds
 
-FAM = {'C16'}
+# 'the layers that were set up are still torn down' is C01's end-of-process clause
+FAM = {'C16', 'C01:left-set-up', 'C01:tearDown-count'}
 BAD = ['fail', 'error', 'uxsuccess', 'subfail', 'td_error', 'setup_error',
        'two_events', 'cleanup_error']
 
